@@ -67,8 +67,13 @@ def _run(name, harness, assumptions=()):
         ok, m = ex.valid(pc, obs == exp)
         if ok is not True:
             wit = {} if m is None else {str(d): str(m[d]) for d in m.decls()}
-            return rec(name, "violation" if ok is False else "inconclusive",
-                       detail=f"path {paths}: observed {obs} but specification says {z3.simplify(exp)}; witness {wit}; {info}",
+            # a path of the real (re-bound) code with a z3 model is a candidate: confirm it on the REAL classes with concrete shapes
+            try:
+                rok, rmsg = replay(name, wit)
+            except Exception as e:  # noqa
+                rok, rmsg = False, f"replay raised {type(e).__name__}: {e}"
+            return rec(name, "violation" if (ok is False and rok) else "inconclusive",
+                       detail=f"path {paths}: observed {obs} but specification says {z3.simplify(exp)}; witness {wit}; {info} | concrete replay: {rmsg}",
                        replay=dict(func="c13:replay", kwargs=dict(name=name, witness=wit)), queries=ex.queries, solver_s=ex.solver_s, paths=paths)
     return rec(name, "discharged", queries=ex.queries, solver_s=ex.solver_s, paths=paths, vacuity=paths > 0,
                sample=dict(paths=paths, note="every path: path-condition => (raised <=> documented incompatibility)"))
@@ -124,8 +129,157 @@ def ob_argcheck(ranks=4):
     return out
 
 
-def replay(name, witness):
-    return False, "shape-algebra witnesses are replayed by the dedicated constructors below (see detail)"
+def _dummy_cls():
+    """a trivial concrete bijection with arbitrary declared shape / cond_shape (identity map), built from the REAL AbstractBijection"""
+    if "D" not in _DUMMY:
+        import jax.numpy as jnp
+        from flowjax.bijections.bijection import AbstractBijection
+
+        class Dummy(AbstractBijection):
+            shape: tuple
+            cond_shape: tuple | None = None
+
+            def transform(self, x, condition=None):
+                return x
+
+            def transform_and_log_det(self, x, condition=None):
+                return x, jnp.zeros(())
+
+            def inverse(self, y, condition=None):
+                return y
+
+            def inverse_and_log_det(self, y, condition=None):
+                return y, jnp.zeros(())
+        _DUMMY["D"] = Dummy
+    return _DUMMY["D"]
+
+
+_DUMMY = {}
+
+
+def _shapes(rank, dims=(1, 2, 3)):
+    return list(itertools.product(dims, repeat=rank))
+
+
+def replay(name, witness=None):
+    """concrete confirmation on the REAL flowjax classes: small concrete shapes of the obligation's ranks are enumerated, the real constructor /
+    method is called and its behaviour (raises or not, declared shapes) is compared with NumPy's concatenate / stack / reshape / equality of
+    tuples.  Returns the first concrete disagreement."""
+    import re
+    import numpy as np
+    import jax.numpy as jnp
+    import flowjax.bijections as fb
+    import flowjax.distributions as fd
+    D = _dummy_cls()
+    nums = lambda s_: [None if q == "None" else int(q) for q in re.findall(r"(None|-?\d+)", s_)]
+
+    def raises(f):
+        try:
+            return False, f()
+        except (ValueError, IndexError, TypeError) as e:
+            return True, e
+    bad = []
+    if "/argcheck/" in name:
+        rb, rc, rx, rd = nums(name.split("ranks(")[1])
+        for b in _shapes(rb, (1, 2)):
+            for c in ([None] if rc is None else _shapes(rc, (1, 2))):
+                for x in _shapes(rx, (1, 2)):
+                    for d in ([None] if rd is None else _shapes(rd, (1, 2))):
+                        bij = D(tuple(b), None if c is None else tuple(c))
+                        want = (tuple(x) != tuple(b)) or (c is not None and (d is None or tuple(d) != tuple(c)))
+                        for meth in ("transform", "inverse", "transform_and_log_det", "inverse_and_log_det"):
+                            got, _ = raises(lambda: getattr(bij, meth)(jnp.zeros(x), None if d is None else jnp.zeros(d)))
+                            if got != want:
+                                return True, f"{meth} of a bijection with shape {b}, cond_shape {c} called with x{tuple(x)}, condition{None if d is None else tuple(d)}: raised={got}, documented={want}"
+        return False, "the real wrapper agrees with the documented rule on the enumerated shapes"
+    if "Chain.__init__" in name:
+        rr = re.search(r"ranks=\((.*?)\) conds=\((.*?)\)", name)
+        ranks, conds = nums(rr.group(1)), nums(rr.group(2))
+        for shs in itertools.product(*[_shapes(r, (1, 2)) for r in ranks]):
+            for cs in itertools.product(*[([None] if c is None else _shapes(c, (1, 2))) for c in conds]):
+                kids = [D(tuple(s_), None if c is None else tuple(c)) for s_, c in zip(shs, cs)]
+                nn = [tuple(c) for c in cs if c is not None]
+                want = any(tuple(s_) != tuple(shs[0]) for s_ in shs) or any(c != nn[0] for c in nn)
+                got, obj = raises(lambda: fb.Chain(kids))
+                if got != want:
+                    return True, f"Chain of children with shapes {shs}, cond shapes {cs}: raised={got}, documented={want}"
+                if not got and (tuple(obj.shape) != tuple(shs[0]) or (obj.cond_shape if not nn else tuple(obj.cond_shape)) != (nn[0] if nn else None)):
+                    return True, f"Chain of children with shapes {shs}, cond shapes {cs} declares {obj.shape}, {obj.cond_shape}"
+        return False, "Chain constructor agrees with the documented rule on the enumerated shapes"
+    if "Concatenate.__init__" in name or "Stack.__init__" in name:
+        cls = fb.Concatenate if "Concatenate" in name else fb.Stack
+        npf = np.concatenate if cls is fb.Concatenate else np.stack
+        n = int(re.search(r"n=(\d+)", name).group(1))
+        if "different ranks" in name:
+            r0, other = [int(q) for q in re.search(r"child ranks (\d+) vs (\d+)", name).groups()]
+            rank_sets = [[r0] * (n - 1) + [other]]
+        else:
+            r0 = int(re.search(r"rank=(\d+)", name).group(1))
+            rank_sets = [[r0] * n]
+        for ranks in rank_sets:
+            for shs in itertools.product(*[_shapes(r, (1, 2)) for r in ranks]):
+                lim = (len(shs[0]) + 1) if cls is fb.Stack else len(shs[0])
+                for ax in range(-lim, lim):
+                    wr, wv = raises(lambda: npf([np.zeros(s_) for s_ in shs], axis=ax))
+                    got, obj = raises(lambda: cls([D(tuple(s_)) for s_ in shs], axis=ax))
+                    if got != wr:
+                        return True, f"{cls.__name__}(children {shs}, axis={ax}): raised={got} but numpy.{npf.__name__} raises={wr}"
+                    if not got and tuple(obj.shape) != tuple(wv.shape):
+                        return True, f"{cls.__name__}(children {shs}, axis={ax}) declares {tuple(obj.shape)} but numpy gives {tuple(wv.shape)}"
+        return False, f"{cls.__name__} constructor agrees with numpy on the enumerated shapes"
+    if "Reshape" in name:
+        for child in [(), (1,), (3,), (2, 3), (1, 1)]:
+            for cchild in [None, (), (2,), (1,), (2, 2)]:
+                for tgt in [None, (), (1,), (3,), (6,), (3, 2), (1, 1)]:
+                    for ctgt in [None, (), (2,), (4,), (1,)]:
+                        inner = D(child, cchild)
+                        want_shape = child if tgt is None else tgt
+                        want_cond = cchild if ctgt is None else ctgt
+                        want = (int(np.prod(want_shape)) != int(np.prod(child))) or (cchild is None and ctgt is not None) or \
+                            (cchild is not None and int(np.prod(want_cond)) != int(np.prod(cchild)))
+                        got, obj = raises(lambda: fb.Reshape(inner, tgt, ctgt))
+                        if got != want:
+                            return True, f"Reshape(child shape {child} cond {cchild}, shape={tgt}, cond_shape={ctgt}): raised={got}, documented={want}"
+                        if not got and (tuple(obj.shape) != tuple(want_shape) or (None if obj.cond_shape is None else tuple(obj.cond_shape)) != want_cond):
+                            return True, f"Reshape(child shape {child} cond {cchild}, shape={tgt}, cond_shape={ctgt}) declares {obj.shape}, {obj.cond_shape}"
+        return False, "Reshape agrees with the documented rule on the enumerated shapes"
+    if "Vmap.get_cond_shape" in name:
+        for c in [None, (), (2,), (2, 3), (1, 2, 3)]:
+            rc = 0 if c is None else len(c)
+            for ax in [None] + list(range(-(rc + 1), rc + 1)):
+                got, obj = raises(lambda: fb.Vmap(D((), c), axis_size=4, in_axes_condition=ax))
+                if got:
+                    return True, f"Vmap(cond_shape {c}, in_axes_condition={ax}) raised {obj}"
+                want = c if (c is None or ax is None) else tuple(np.stack([np.zeros(c)] * 4, axis=ax).shape)
+                if (None if obj.cond_shape is None else tuple(obj.cond_shape)) != want:
+                    return True, f"Vmap(cond_shape {c}, axis_size=4, in_axes_condition={ax}) declares cond_shape {obj.cond_shape} but stacking gives {want}"
+        return False, "Vmap.cond_shape agrees with numpy.stack on the enumerated shapes"
+    if "Transformed.__check_init__" in name:
+        for c1 in [None, (), (2,), (3,)]:
+            for c2 in [None, (), (2,), (3,)]:
+                class _B(fd.AbstractDistribution):
+                    shape: tuple = ()
+                    cond_shape: tuple | None = None
+
+                    def _log_prob(self, x, condition=None):
+                        return jnp.zeros(())
+
+                    def _sample(self, key, condition=None):
+                        return jnp.zeros(())
+                want = c1 is not None and c2 is not None and c1 != c2
+                got, obj = raises(lambda: fd.Transformed(_B((), c1), D((), c2)))
+                if got != want:
+                    return True, f"Transformed(base cond_shape {c1}, bijection cond_shape {c2}): raised={got}, documented={want}"
+        return False, "Transformed agrees with the documented rule"
+    if "_check_shapes" in name:
+        d0 = fd.Normal(jnp.zeros((2, 3)), jnp.ones((2, 3)))
+        for x in [(2, 3), (3,), (4, 2, 3), (2, 2), (3, 2), (1, 3), ()]:
+            want = x[-2:] != (2, 3) if len(x) >= 2 else True
+            got, _ = raises(lambda: d0.log_prob(jnp.zeros(x)))
+            if got != want:
+                return True, f"Normal with shape (2, 3): log_prob(x{x}) raised={got}, documented={want}"
+        return False, "distribution shape check agrees with the documented rule"
+    return False, "no concrete replay for this obligation family"
 
 
 def ob_mro_closure():
@@ -342,6 +496,48 @@ def ob_constructors(max_children=2, max_rank=2):
                 fails.append(rr)
     out += fails or [rec("C13/Reshape.__check_init__: raises iff element counts differ (shape or cond_shape) or an unconditional bijection gets a cond_shape", "discharged",
                          queries=tq, solver_s=ts, paths=tp, vacuity=True)]
+
+    # ---- Reshape.__init__ + __check_init__ through the REAL constructor code: explicit targets (also the rank-0 target `()`), or None ----
+    tq = tp = 0
+    ts = 0.0
+    fails = []
+    for r1 in rk:
+        for c1 in (None, 0, 1):
+            for tgt in (None, 0, 1, 2):
+                for ctgt in ((None,) if c1 is None else (None, 0, 1)):
+                    def harness(ex, r1=r1, c1=c1, tgt=tgt, ctgt=ctgt):
+                        inner = FB(ints("s", r1), None if c1 is None else ints("c", c1))
+                        shape = None if tgt is None else ints("t", tgt)
+                        cshape = None if ctgt is None else ints("d", ctgt)
+                        ns = types.SimpleNamespace()
+                        try:
+                            Reshape.__init__(ns, inner, shape, cshape)
+                            Reshape.__check_init__(ns)
+                            raised = False
+                        except ValueError:
+                            raised = True
+
+                        def prod(t):
+                            p = z3.IntVal(1)
+                            for v in t:
+                                p = p * pysym.lift(v)
+                            return p
+                        want_shape = inner.shape if shape is None else shape
+                        want_cond = inner.cond_shape if cshape is None else cshape
+                        should = prod(want_shape) != prod(inner.shape)
+                        if inner.cond_shape is not None:
+                            should = z3.Or(should, prod(want_cond) != prod(inner.cond_shape))
+                        if raised:
+                            return True, should, f"Reshape child rank {r1}, target {tgt}, cond {c1}->{ctgt}"
+                        declared_ok = z3.And(eqt(ns.shape, want_shape), eqt(ns.cond_shape, want_cond) if want_cond is not None else z3.BoolVal(ns.cond_shape is None))
+                        # not raised: the documented mismatch must be absent AND the declared shapes must be the requested ones
+                        return z3.Not(declared_ok), should, f"Reshape child rank {r1}, target {tgt}, cond {c1}->{ctgt}: declared {ns.shape}, {ns.cond_shape}"
+                    rr = _run(f"C13/Reshape(child rank {r1}, shape target rank {tgt}, cond rank {c1} -> target {ctgt})", harness, [])
+                    tq += rr["queries"]; ts += rr["solver_s"]; tp += rr.get("paths", 0)
+                    if rr["status"] != "discharged":
+                        fails.append(rr)
+    out += fails or [rec("C13/Reshape.__init__: declares exactly the requested shape / cond_shape (an explicit rank-0 target `()` included, None = unchanged) and raises iff the element counts differ",
+                         "discharged", queries=tq, solver_s=ts, paths=tp, vacuity=True)]
 
     # ---- Vmap.get_cond_shape with symbolic axis ----
     tq = tp = 0
